@@ -53,8 +53,9 @@ class Data2DPCK(Sized, BuildWriteable):
     @property
     def nBytes(self):
         nFrames, nCameras = self.data.shape
+        # points are written as pairs of 32 bit floats whatever the dtype of the array
         return 2 * nCameras * nFrames + sum(
-            self.data[i, j].nbytes
+            len(self.data[i, j]) * VEC2F.btype.itemsize
             for i in range(nFrames)
             for j in range(nCameras)
             if self.data[i, j] is not None
